@@ -225,6 +225,25 @@ def h2(ctx, R):
     ctx.rule("H2", "reset coverage: every Parser attribute written by a token handler is re-initialised by the reset; reset dominates the loop")
     handlers = [f for f in R.Parser.methods.values() if f not in (R.reset, R.parse) and f.name not in ("__init__", "parse_file", "dump")]
     written = {}
+    # the failure report (error, error_pos, ...): attributes stored only in parse()'s exception handlers and read nowhere else in the
+    # parser describe the outcome of the last call; they are results, not state that a later parse could start from
+    report = {"error", "error_pos"}
+    in_handler, elsewhere = set(), set()
+    for f in R.Parser.methods.values():
+        selfn = f.params[0] if f.params else "self"
+        for n in walk_no_nested(f.node):
+            if isinstance(n, ast.Attribute) and isinstance(n.value, ast.Name) and n.value.id == selfn:
+                p_ = n
+                inh = False
+                while p_ is not None and p_ is not f.node:
+                    if isinstance(p_, ast.ExceptHandler) and f is R.parse:
+                        inh = True
+                    p_ = getattr(p_, "_parent", None)
+                if inh:
+                    in_handler.add(n.attr)
+                elif not (f.name == "__init__" and isinstance(n.ctx, ast.Store)) and f.name not in ("dump",):
+                    elsewhere.add(n.attr)
+    report |= {a for a in in_handler - elsewhere if not a.startswith("_")}
     for f in handlers + [R.parse]:
         selfn = f.params[0]
         for n in walk_no_nested(f.node):
@@ -239,7 +258,7 @@ def h2(ctx, R):
                     a = n.attr
                 elif isinstance(p, ast.AugAssign) and p.target is n:
                     a = n.attr
-            if a and a not in ("error", "error_pos"):
+            if a and a not in report:
                 written.setdefault(a, f)
     inits = set()
     for n in walk_no_nested(R.reset.node):
@@ -257,7 +276,10 @@ def h2(ctx, R):
     for n in walk_no_nested(R.reset.node):
         if isinstance(n, ast.Assign) and any(isinstance(t, ast.Attribute) and t.attr in written for t in n.targets):
             v = n.value
-            ok = (isinstance(v, ast.Constant) and v.value is None) or (isinstance(v, (ast.List, ast.Dict, ast.Tuple)) and not getattr(v, "elts", getattr(v, "keys", [])))
+            ok = (isinstance(v, ast.Constant) and v.value in (None, b"", "", 0, False)) or (
+                isinstance(v, (ast.List, ast.Dict, ast.Tuple)) and not getattr(v, "elts", getattr(v, "keys", []))) or (
+                isinstance(v, ast.Call) and isinstance(v.func, ast.Name) and v.func.id in ("list", "dict", "set", "tuple", "bytes", "str", "bytearray")
+                and not v.args and not v.keywords)
             if not ok:
                 ctx.violation("H2", R.reset, "reset-value:%s" % norm(n.targets[0]), "the reset initialises %s with %s (not an empty/None value)"
                               % (norm(n.targets[0]), norm(v)), node=n)
